@@ -214,6 +214,15 @@ class VHeapMap(Val):
         self.kind = ('heapmap', key_kind, val_kind)
 
 
+class VRange(Val):
+    """range(n): the integers 0 .. n-1 (only iterated)"""
+    elem_kind = INT
+
+    def __init__(self, n):
+        self.n = n
+        self.kind = ('range',)
+
+
 class VNode(Val):
     kind = NODE
 
